@@ -1,36 +1,858 @@
 /-
 Helper lemmas for C17.
+
+`merge`: mutual structural inductions over `Cfg`.  `config`: the recursive calls on the children rules are kept
+opaque; `configMatched` / `configRule` / `configRules` are characterised by membership (`rules_mem`), keys
+(`rules_keys`), key uniqueness (`rules_nodup`) and success (`rules_some`).  Idempotence (`idem_core`) is a
+well-founded induction over the rule tree.  `complete_idempotent` has two extra hypotheses (see there).
 -/
 import AnnetModel.Spec.Implicit
 
 namespace Annet.Implicit.Lemmas
-open Annet Annet.Implicit Annet.Implicit.Spec
+open Annet Annet.Implicit Annet.Implicit.Spec Annet.Pattern
+open Annet.Acl.Spec (SubL)
 
-theorem merge_keeps_left (a b : Cfg) : Annet.Acl.Spec.Sub a (merge a b) := by
-  sorry
+/-! ### sub-tree and `merge` -/
 
-theorem merge_self (t : Cfg) (h : NoDupKeys t) : merge t t = t := by
-  sorry
+mutual
+  theorem sub_refl : (c : Cfg) → Acl.Spec.Sub c c
+    | .mk ks => Acl.Spec.Sub.mk (subL_refl ks)
+  theorem subL_refl : (ks : List (String × Cfg)) → SubL ks ks
+    | [] => SubL.nil _
+    | (k, c) :: rest => SubL.keep k (sub_refl c) (subL_refl rest)
+end
+
+mutual
+  theorem merge_sub : (a b : Cfg) → Acl.Spec.Sub a (merge a b)
+    | .mk a, .mk b => by rw [merge]; exact Acl.Spec.Sub.mk (mergeL_sub a b _)
+  theorem mergeL_sub : (a b x : List (String × Cfg)) → SubL a (mergeL a b ++ x)
+    | [], _, _ => SubL.nil _
+    | (k, c) :: rest, b, x => by
+      rw [mergeL]
+      cases hf : b.find? (·.1 == k) with
+      | none => exact SubL.keep k (sub_refl c) (mergeL_sub rest b x)
+      | some e =>
+        obtain ⟨k', c'⟩ := e
+        exact SubL.keep k (merge_sub c c') (mergeL_sub rest b x)
+end
+
+theorem merge_keeps_left (a b : Cfg) : Annet.Acl.Spec.Sub a (merge a b) := merge_sub a b
+
+/-- keys of one level -/
+def keys (l : List (String × Cfg)) : List String := l.map (·.1)
+
+theorem mem_keys {l : List (String × Cfg)} {k : String} : k ∈ keys l ↔ ∃ c, (k, c) ∈ l := by
+  simp [keys]
+
+theorem any_key (l : List (String × Cfg)) (k : String) : l.any (·.1 == k) = true ↔ k ∈ keys l := by
+  simp [keys]
+
+theorem keys_of_mem {l : List (String × Cfg)} {e : String × Cfg} (h : e ∈ l) : e.1 ∈ keys l :=
+  List.mem_map_of_mem h
+
+theorem nodupKeys_keys : (ks : List (String × Cfg)) → NoDupKeysL ks → (keys ks).Nodup
+  | [], _ => List.nodup_nil
+  | (k, c) :: rest, h => by
+    rw [NoDupKeysL] at h
+    simp only [keys, List.map_cons, List.nodup_cons]
+    refine ⟨?_, nodupKeys_keys rest h.2.2⟩
+    intro hm
+    obtain ⟨e, he, hk⟩ := List.mem_map.1 hm
+    exact h.1 e he hk
+
+/-- with distinct keys an entry is determined by its key -/
+theorem entry_unique : (l : List (String × Cfg)) → (keys l).Nodup → ∀ {k c c'}, (k, c) ∈ l → (k, c') ∈ l → c = c'
+  | [], _, _, _, _, h, _ => by cases h
+  | e :: rest, hn, k, c, c', h1, h2 => by
+    simp only [keys, List.map_cons, List.nodup_cons] at hn
+    rcases List.mem_cons.1 h1 with h3 | h3 <;> rcases List.mem_cons.1 h2 with h4 | h4
+    · rw [← h4] at h3; cases h3; rfl
+    · subst h3; exact (hn.1 (List.mem_map.2 ⟨_, h4, rfl⟩)).elim
+    · subst h4; exact (hn.1 (List.mem_map.2 ⟨_, h3, rfl⟩)).elim
+    · exact entry_unique rest hn.2 h3 h4
+
+theorem find_self : (l : List (String × Cfg)) → (keys l).Nodup → ∀ e ∈ l, l.find? (·.1 == e.1) = some e
+  | [], _, _, h => by cases h
+  | x :: rest, hn, e, h => by
+    simp only [keys, List.map_cons, List.nodup_cons] at hn
+    rcases List.mem_cons.1 h with rfl | h
+    · simp
+    · have : x.1 ≠ e.1 := fun hx => hn.1 (hx ▸ keys_of_mem h)
+      rw [List.find?_cons_of_neg (by simpa using this)]
+      exact find_self rest hn.2 e h
+
+theorem find_some {b : List (String × Cfg)} {k k' : String} {c' : Cfg}
+    (h : b.find? (·.1 == k) = some (k', c')) : k' = k ∧ (k, c') ∈ b := by
+  have h1 := List.find?_some h
+  have h2 := List.mem_of_find?_eq_some h
+  simp only [beq_iff_eq] at h1
+  subst h1; exact ⟨rfl, h2⟩
+
+theorem find_none {b : List (String × Cfg)} {k : String} (h : b.find? (·.1 == k) = none) : k ∉ keys b := by
+  intro hk
+  obtain ⟨c, hc⟩ := mem_keys.1 hk
+  have := List.find?_eq_none.1 h _ hc
+  simp at this
+
+mutual
+  theorem merge_self_aux : (t : Cfg) → NoDupKeys t → merge t t = t
+    | .mk a, h => by
+      rw [NoDupKeys] at h
+      rw [merge, mergeL_self_aux a a h (find_self a (nodupKeys_keys a h))]
+      have : a.filter (fun e => !(a.any (·.1 == e.1))) = [] := by
+        rw [List.filter_eq_nil_iff]
+        intro e he
+        have := (any_key a e.1).2 (keys_of_mem he)
+        simp only [this, Bool.not_true, Bool.false_eq_true, not_false_eq_true]
+      rw [this, List.append_nil]
+  theorem mergeL_self_aux : (a b : List (String × Cfg)) → NoDupKeysL a →
+      (∀ e ∈ a, b.find? (·.1 == e.1) = some e) → mergeL a b = a
+    | [], _, _, _ => by rw [mergeL]
+    | (k, c) :: rest, b, h, hf => by
+      rw [NoDupKeysL] at h
+      rw [mergeL, hf (k, c) List.mem_cons_self]
+      simp only
+      rw [merge_self_aux c h.2.1, mergeL_self_aux rest b h.2.2 (fun e he => hf e (List.mem_cons_of_mem _ he))]
+end
+
+theorem merge_self (t : Cfg) (h : NoDupKeys t) : merge t t = t := merge_self_aux t h
+
+theorem mergeL_nil_right : (a : List (String × Cfg)) → mergeL a [] = a
+  | [] => by rw [mergeL]
+  | (k, c) :: rest => by rw [mergeL, mergeL_nil_right rest]; rfl
 
 theorem merge_empty_right (t : Cfg) : merge t (.mk []) = t := by
-  sorry
+  cases t with
+  | mk a => rw [merge, mergeL_nil_right]; simp
+
+theorem complete_eq {rules : List IRule} {t m : Cfg} (h : complete rules t = some m) :
+    ∃ imp, configRules rules t.kids [] = some imp ∧ m = merge t (.mk imp) := by
+  simp only [complete, config, Option.map_map, Option.map_eq_some_iff] at h
+  obtain ⟨imp, h1, h2⟩ := h
+  exact ⟨imp, h1, h2.symm⟩
 
 theorem keeps_explicit (rules : List IRule) (t m : Cfg) (h : complete rules t = some m) :
     Annet.Acl.Spec.Sub t m := by
-  sorry
+  obtain ⟨imp, _, rfl⟩ := complete_eq h
+  exact merge_sub _ _
+
+/-! ### `setKey` -/
+
+theorem mem_setKey {d : List (String × Cfg)} {k : String} {v : Cfg} {e : String × Cfg}
+    (h : e ∈ setKey d k v) : e ∈ d ∨ e = (k, v) := by
+  unfold setKey at h
+  split at h
+  · obtain ⟨x, hx, rfl⟩ := List.mem_map.1 h
+    split
+    · exact .inr rfl
+    · exact .inl hx
+  · rcases List.mem_append.1 h with h | h
+    · exact .inl h
+    · exact .inr (by simpa using h)
+
+theorem keys_setKey (d : List (String × Cfg)) (k : String) (v : Cfg) :
+    keys (setKey d k v) = if k ∈ keys d then keys d else keys d ++ [k] := by
+  unfold setKey
+  by_cases hk : k ∈ keys d
+  · rw [if_pos ((any_key d k).2 hk), if_pos hk]
+    simp only [keys, List.map_map]
+    apply List.map_congr_left
+    intro e _
+    simp only [Function.comp]
+    split
+    · rename_i h; exact (beq_iff_eq.1 h).symm
+    · rfl
+  · rw [if_neg (fun h => hk ((any_key d k).1 h)), if_neg hk]
+    simp [keys]
+
+theorem mem_keys_setKey {d : List (String × Cfg)} {k k' : String} {v : Cfg} :
+    k' ∈ keys (setKey d k v) ↔ k' ∈ keys d ∨ k' = k := by
+  rw [keys_setKey]
+  split
+  · constructor
+    · exact .inl
+    · rintro (h | rfl)
+      · exact h
+      · assumption
+  · simp
+
+theorem nodup_setKey {d : List (String × Cfg)} (k : String) (v : Cfg) (h : (keys d).Nodup) :
+    (keys (setKey d k v)).Nodup := by
+  rw [keys_setKey]
+  split
+  · exact h
+  · rename_i hk
+    rw [List.nodup_append]
+    refine ⟨h, by simp, ?_⟩
+    intro a ha b hb
+    simp only [List.mem_singleton] at hb
+    subst hb
+    exact fun hab => hk (hab ▸ ha)
+
+/-! ### `configMatched` -/
+
+theorem configMatched_mem (recur : List (String × Cfg) → Option (List (String × Cfg))) :
+    (matched acc out : List (String × Cfg)) → configMatched recur matched acc = some out →
+      ∀ e ∈ out, e ∈ acc ∨ ∃ line sub sub', (line, Cfg.mk sub) ∈ matched ∧ recur sub = some sub' ∧
+        e = (line, Cfg.mk sub')
+  | [], acc, out, h, e, he => by
+    simp only [configMatched, Option.some.injEq] at h
+    subst h; exact .inl he
+  | (line, .mk sub) :: more, acc, out, h, e, he => by
+    rw [configMatched] at h
+    split at h
+    · cases h
+    · rename_i t ht
+      rcases configMatched_mem recur more _ out h e he with h1 | ⟨l, s, s', hm, hr, rfl⟩
+      · rcases mem_setKey h1 with h2 | rfl
+        · exact .inl h2
+        · exact .inr ⟨line, sub, t, List.mem_cons_self, ht, rfl⟩
+      · exact .inr ⟨l, s, s', List.mem_cons_of_mem _ hm, hr, rfl⟩
+
+theorem configMatched_keys (recur : List (String × Cfg) → Option (List (String × Cfg))) :
+    (matched acc out : List (String × Cfg)) → configMatched recur matched acc = some out →
+      ∀ k, k ∈ keys out ↔ k ∈ keys acc ∨ k ∈ keys matched
+  | [], acc, out, h, k => by
+    simp only [configMatched, Option.some.injEq] at h
+    subst h; simp [keys]
+  | (line, .mk sub) :: more, acc, out, h, k => by
+    rw [configMatched] at h
+    split at h
+    · cases h
+    · rw [configMatched_keys recur more _ out h k, mem_keys_setKey]
+      simp only [keys, List.map_cons, List.mem_cons]
+      constructor
+      · rintro ((h | h) | h)
+        · exact .inl h
+        · exact .inr (.inl h)
+        · exact .inr (.inr h)
+      · rintro (h | h | h)
+        · exact .inl (.inl h)
+        · exact .inl (.inr h)
+        · exact .inr h
+
+theorem configMatched_nodup (recur : List (String × Cfg) → Option (List (String × Cfg))) :
+    (matched acc out : List (String × Cfg)) → configMatched recur matched acc = some out →
+      (keys acc).Nodup → (keys out).Nodup
+  | [], acc, out, h, hn => by
+    simp only [configMatched, Option.some.injEq] at h
+    subst h; exact hn
+  | (line, .mk sub) :: more, acc, out, h, hn => by
+    rw [configMatched] at h
+    split at h
+    · cases h
+    · exact configMatched_nodup recur more _ out h (nodup_setKey _ _ hn)
+
+theorem configMatched_some (recur : List (String × Cfg) → Option (List (String × Cfg))) :
+    (matched acc : List (String × Cfg)) →
+      (∀ line sub, (line, Cfg.mk sub) ∈ matched → (recur sub).isSome = true) →
+      ∃ out, configMatched recur matched acc = some out
+  | [], acc, _ => ⟨acc, by rw [configMatched]⟩
+  | (line, .mk sub) :: more, acc, h => by
+    rw [configMatched]
+    obtain ⟨t, ht⟩ := Option.isSome_iff_exists.1 (h line sub List.mem_cons_self)
+    rw [ht]
+    exact configMatched_some recur more _ (fun l s hm => h l s (List.mem_cons_of_mem _ hm))
+
+/-! ### one rule -/
+
+/-- the line is in the language of the rule's row -/
+def matchesLine (r : IRule) (line : String) : Bool := rowMatches r line == some true
+
+/-- `matched_lines` of a rule -/
+def matchedBy (r : IRule) (cfg : List (String × Cfg)) : List (String × Cfg) := cfg.filter fun e => matchesLine r e.1
+
+/-- the rule adds its row as a default -/
+def adds (r : IRule) (cfg : List (String × Cfg)) : Bool :=
+  !r.ignore && !((matchedBy r cfg).any fun e => !e.1.isEmpty) && !(cfg.any (·.1 == r.row))
+
+theorem configRule_eq (r : IRule) (cfg acc : List (String × Cfg)) :
+    configRule r cfg acc =
+      match parseRow false r.row.toList with
+      | none => none
+      | some _ =>
+        if adds r cfg then
+          match configRules r.children [] [] with
+          | none => none
+          | some sub => configMatched (fun s => configRules r.children s []) (matchedBy r cfg) (setKey acc r.row (.mk sub))
+        else configMatched (fun s => configRules r.children s []) (matchedBy r cfg) acc := by
+  obtain ⟨row, ign, ch⟩ := r
+  rw [configRule]
+  simp only [IRule.row, IRule.children]
+  cases hp : parseRow false row.toList with
+  | none => rfl
+  | some p =>
+    have hm : ∀ line : String, matchesLine (.mk row ign ch) line = (p.match? line.toList).isSome := by
+      intro line
+      simp only [matchesLine, rowMatches, IRule.row, hp, Option.map_some]
+      cases (p.match? line.toList).isSome <;> rfl
+    simp only [adds, matchedBy, hm, IRule.ignore, IRule.row]
+    rfl
+
+
+theorem mem_matchedBy {r : IRule} {cfg : List (String × Cfg)} {e : String × Cfg} :
+    e ∈ matchedBy r cfg ↔ e ∈ cfg ∧ matchesLine r e.1 = true := by
+  simp [matchedBy]
+
+theorem mem_keys_matchedBy {r : IRule} {cfg : List (String × Cfg)} {k : String} :
+    k ∈ keys (matchedBy r cfg) ↔ ∃ e ∈ cfg, matchesLine r e.1 = true ∧ e.1 = k := by
+  simp only [keys, List.mem_map, mem_matchedBy]
+  constructor
+  · rintro ⟨e, ⟨h1, h2⟩, h3⟩; exact ⟨e, h1, h2, h3⟩
+  · rintro ⟨e, h1, h2, h3⟩; exact ⟨e, ⟨h1, h2⟩, h3⟩
+
+theorem configRule_inv {r : IRule} {cfg acc out : List (String × Cfg)} (h : configRule r cfg acc = some out) :
+    (parseRow false r.row.toList).isSome = true ∧
+    ((adds r cfg = true ∧ ∃ sub, configRules r.children [] [] = some sub ∧
+        configMatched (fun s => configRules r.children s []) (matchedBy r cfg) (setKey acc r.row (.mk sub)) = some out) ∨
+     (adds r cfg = false ∧
+        configMatched (fun s => configRules r.children s []) (matchedBy r cfg) acc = some out)) := by
+  rw [configRule_eq] at h
+  split at h
+  · cases h
+  · rename_i p hp
+    refine ⟨by rw [hp]; rfl, ?_⟩
+    split at h
+    · rename_i ha
+      split at h
+      · cases h
+      · rename_i sub hs
+        exact .inl ⟨ha, sub, hs, h⟩
+    · rename_i ha
+      exact .inr ⟨by simpa using ha, h⟩
+
+theorem rule_mem {r : IRule} {cfg acc out : List (String × Cfg)} (h : configRule r cfg acc = some out)
+    {e : String × Cfg} (he : e ∈ out) :
+    e ∈ acc ∨ (adds r cfg = true ∧ ∃ sub, configRules r.children [] [] = some sub ∧ e = (r.row, Cfg.mk sub)) ∨
+      ∃ line sub sub', (line, Cfg.mk sub) ∈ cfg ∧ matchesLine r line = true ∧
+        configRules r.children sub [] = some sub' ∧ e = (line, Cfg.mk sub') := by
+  obtain ⟨_, ⟨ha, sub, hs, hm⟩ | ⟨_, hm⟩⟩ := configRule_inv h
+  · rcases configMatched_mem _ _ _ _ hm e he with h1 | ⟨l, s, s', h1, h2, h3⟩
+    · rcases mem_setKey h1 with h1 | h1
+      · exact .inl h1
+      · exact .inr (.inl ⟨ha, sub, hs, h1⟩)
+    · exact .inr (.inr ⟨l, s, s', (mem_matchedBy.1 h1).1, (mem_matchedBy.1 h1).2, h2, h3⟩)
+  · rcases configMatched_mem _ _ _ _ hm e he with h1 | ⟨l, s, s', h1, h2, h3⟩
+    · exact .inl h1
+    · exact .inr (.inr ⟨l, s, s', (mem_matchedBy.1 h1).1, (mem_matchedBy.1 h1).2, h2, h3⟩)
+
+theorem rule_keys {r : IRule} {cfg acc out : List (String × Cfg)} (h : configRule r cfg acc = some out) (k : String) :
+    k ∈ keys out ↔ k ∈ keys acc ∨ (adds r cfg = true ∧ k = r.row) ∨
+      ∃ e ∈ cfg, matchesLine r e.1 = true ∧ e.1 = k := by
+  obtain ⟨_, ⟨ha, sub, hs, hm⟩ | ⟨ha, hm⟩⟩ := configRule_inv h
+  · rw [configMatched_keys _ _ _ _ hm, mem_keys_setKey, mem_keys_matchedBy]
+    simp only [ha, true_and, or_assoc]
+  · rw [configMatched_keys _ _ _ _ hm, mem_keys_matchedBy]
+    simp [ha]
+
+theorem rule_nodup {r : IRule} {cfg acc out : List (String × Cfg)} (h : configRule r cfg acc = some out)
+    (hn : (keys acc).Nodup) : (keys out).Nodup := by
+  obtain ⟨_, ⟨ha, sub, hs, hm⟩ | ⟨ha, hm⟩⟩ := configRule_inv h
+  · exact configMatched_nodup _ _ _ _ hm (nodup_setKey _ _ hn)
+  · exact configMatched_nodup _ _ _ _ hm hn
+
+theorem rule_some {r : IRule} {cfg : List (String × Cfg)} (acc : List (String × Cfg))
+    (hp : (parseRow false r.row.toList).isSome = true)
+    (ha : adds r cfg = true → (configRules r.children [] []).isSome = true)
+    (hm : ∀ line sub, (line, Cfg.mk sub) ∈ cfg → matchesLine r line = true →
+      (configRules r.children sub []).isSome = true) :
+    ∃ out, configRule r cfg acc = some out := by
+  rw [configRule_eq]
+  obtain ⟨p, hp⟩ := Option.isSome_iff_exists.1 hp
+  rw [hp]
+  have hm' : ∀ line sub, (line, Cfg.mk sub) ∈ matchedBy r cfg →
+      ((fun s => configRules r.children s []) sub).isSome = true :=
+    fun line sub h => hm line sub (mem_matchedBy.1 h).1 (mem_matchedBy.1 h).2
+  simp only
+  split
+  · rename_i hadd
+    obtain ⟨sub, hs⟩ := Option.isSome_iff_exists.1 (ha hadd)
+    rw [hs]
+    exact configMatched_some _ _ _ hm'
+  · exact configMatched_some _ _ _ hm'
+
+/-! ### the loop over the rules -/
+
+theorem rules_mem : (rules : List IRule) → (cfg acc out : List (String × Cfg)) →
+    configRules rules cfg acc = some out → ∀ e ∈ out,
+    e ∈ acc ∨
+    (∃ r ∈ rules, adds r cfg = true ∧ ∃ sub, configRules r.children [] [] = some sub ∧ e = (r.row, Cfg.mk sub)) ∨
+    (∃ r ∈ rules, ∃ line sub sub', (line, Cfg.mk sub) ∈ cfg ∧ matchesLine r line = true ∧
+        configRules r.children sub [] = some sub' ∧ e = (line, Cfg.mk sub'))
+  | [], cfg, acc, out, h, e, he => by
+    simp only [configRules, Option.some.injEq] at h
+    subst h; exact .inl he
+  | r :: rest, cfg, acc, out, h, e, he => by
+    rw [configRules] at h
+    split at h
+    · cases h
+    · rename_i acc' hr
+      rcases rules_mem rest cfg acc' out h e he with h1 | ⟨r', hr', h1⟩ | ⟨r', hr', h1⟩
+      · rcases rule_mem hr h1 with h2 | h2 | h2
+        · exact .inl h2
+        · exact .inr (.inl ⟨r, List.mem_cons_self, h2⟩)
+        · exact .inr (.inr ⟨r, List.mem_cons_self, h2⟩)
+      · exact .inr (.inl ⟨r', List.mem_cons_of_mem _ hr', h1⟩)
+      · exact .inr (.inr ⟨r', List.mem_cons_of_mem _ hr', h1⟩)
+
+theorem rules_keys : (rules : List IRule) → (cfg acc out : List (String × Cfg)) →
+    configRules rules cfg acc = some out → ∀ k,
+    (k ∈ keys out ↔ k ∈ keys acc ∨ (∃ r ∈ rules, adds r cfg = true ∧ k = r.row) ∨
+      ∃ r ∈ rules, ∃ e ∈ cfg, matchesLine r e.1 = true ∧ e.1 = k)
+  | [], cfg, acc, out, h, k => by
+    simp only [configRules, Option.some.injEq] at h
+    subst h; simp
+  | r :: rest, cfg, acc, out, h, k => by
+    rw [configRules] at h
+    split at h
+    · cases h
+    · rename_i acc' hr
+      rw [rules_keys rest cfg acc' out h k, rule_keys hr k]
+      simp only [List.mem_cons, exists_eq_or_imp]
+      constructor
+      · rintro ((h | h | h) | h | h)
+        · exact .inl h
+        · exact .inr (.inl (.inl h))
+        · exact .inr (.inr (.inl h))
+        · exact .inr (.inl (.inr h))
+        · exact .inr (.inr (.inr h))
+      · rintro (h | (h | h) | (h | h))
+        · exact .inl (.inl h)
+        · exact .inl (.inr (.inl h))
+        · exact .inr (.inl h)
+        · exact .inl (.inr (.inr h))
+        · exact .inr (.inr h)
+
+theorem rules_nodup : (rules : List IRule) → (cfg acc out : List (String × Cfg)) →
+    configRules rules cfg acc = some out → (keys acc).Nodup → (keys out).Nodup
+  | [], cfg, acc, out, h, hn => by
+    simp only [configRules, Option.some.injEq] at h
+    subst h; exact hn
+  | r :: rest, cfg, acc, out, h, hn => by
+    rw [configRules] at h
+    split at h
+    · cases h
+    · rename_i acc' hr
+      exact rules_nodup rest cfg acc' out h (rule_nodup hr hn)
+
+theorem rules_parse : (rules : List IRule) → (cfg acc out : List (String × Cfg)) →
+    configRules rules cfg acc = some out → ∀ r ∈ rules, (parseRow false r.row.toList).isSome = true
+  | [], _, _, _, _, _, hr => by cases hr
+  | r :: rest, cfg, acc, out, h, r', hr' => by
+    rw [configRules] at h
+    split at h
+    · cases h
+    · rename_i acc' hr
+      rcases List.mem_cons.1 hr' with rfl | hr'
+      · exact (configRule_inv hr).1
+      · exact rules_parse rest cfg acc' out h r' hr'
+
+theorem rules_some : (rules : List IRule) → (cfg acc : List (String × Cfg)) →
+    (∀ r ∈ rules, (parseRow false r.row.toList).isSome = true ∧
+      (adds r cfg = true → (configRules r.children [] []).isSome = true) ∧
+      ∀ line sub, (line, Cfg.mk sub) ∈ cfg → matchesLine r line = true →
+        (configRules r.children sub []).isSome = true) →
+    ∃ out, configRules rules cfg acc = some out
+  | [], _, acc, _ => ⟨acc, by rw [configRules]⟩
+  | r :: rest, cfg, acc, h => by
+    rw [configRules]
+    obtain ⟨h1, h2, h3⟩ := h r List.mem_cons_self
+    obtain ⟨acc', ha⟩ := rule_some acc h1 h2 h3
+    rw [ha]
+    exact rules_some rest cfg acc' (fun r' hr' => h r' (List.mem_cons_of_mem _ hr'))
+
+
+/-! ### keys of the completion -/
+
+theorem keys_mergeL : (a b : List (String × Cfg)) → keys (mergeL a b) = keys a
+  | [], _ => by rw [mergeL]
+  | (k, c) :: rest, b => by
+    rw [mergeL]
+    simp only [keys, List.map_cons]
+    rw [show List.map (fun x => x.1) (mergeL rest b) = List.map (fun x => x.1) rest from keys_mergeL rest b]
+    congr 1
+    split <;> rfl
+
+theorem mem_keys_merge {a b : List (String × Cfg)} {k : String} :
+    k ∈ keys (merge (.mk a) (.mk b)).kids ↔ k ∈ keys a ∨ k ∈ keys b := by
+  rw [merge]
+  simp only [Cfg.kids]
+  rw [show ∀ x y : List (String × Cfg), keys (x ++ y) = keys x ++ keys y from fun x y => List.map_append,
+    List.mem_append, keys_mergeL]
+  constructor
+  · rintro (h | h)
+    · exact .inl h
+    · obtain ⟨e, he, rfl⟩ := List.mem_map.1 h
+      exact .inr (keys_of_mem (List.mem_filter.1 he).1)
+  · rintro (h | h)
+    · exact .inl h
+    · by_cases hk : k ∈ keys a
+      · exact .inl hk
+      · obtain ⟨c, hc⟩ := mem_keys.1 h
+        refine .inr (List.mem_map.2 ⟨(k, c), List.mem_filter.2 ⟨hc, ?_⟩, rfl⟩)
+        have : a.any (·.1 == k) = false := by
+          rw [← Bool.not_eq_true, any_key]; exact hk
+        simp only [this, Bool.not_false]
+
+theorem hasKey_iff (t : Cfg) (k : String) : hasKey t k = true ↔ k ∈ keys t.kids := any_key _ _
+
+theorem rows_inj : (rules : List IRule) → RowsDistinct rules → ∀ r1 ∈ rules, ∀ r2 ∈ rules, r1.row = r2.row → r1 = r2
+  | [], _, _, h, _, _, _ => by cases h
+  | r :: rest, hd, r1, h1, r2, h2, he => by
+    simp only [RowsDistinct, List.map_cons, List.nodup_cons] at hd
+    rcases List.mem_cons.1 h1 with h3 | h3 <;> rcases List.mem_cons.1 h2 with h4 | h4
+    · rw [h3, h4]
+    · subst h3; exact (hd.1 (List.mem_map.2 ⟨r2, h4, he.symm⟩)).elim
+    · subst h4; exact (hd.1 (List.mem_map.2 ⟨r1, h3, he⟩)).elim
+    · exact rows_inj rest hd.2 r1 h3 r2 h4 he
+
+theorem adds_eq (r : IRule) (t : Cfg) :
+    adds r t.kids = (!r.ignore && !hasLineOfKind r t && !hasKey t r.row) := by
+  simp only [adds, matchedBy, hasLineOfKind, hasKey, List.any_filter, matchesLine]
+  have : ∀ a : String × Cfg, (rowMatches r a.1 == some true && !a.1.isEmpty) =
+      (!a.1.isEmpty && rowMatches r a.1 == some true) := fun a => Bool.and_comm _ _
+  simp only [this]
+
+/-- keys of the completion: explicit keys, default rows that are added, (matched lines are explicit keys) -/
+theorem complete_keys {rules : List IRule} {t m : Cfg} (h : complete rules t = some m) (k : String) :
+    hasKey m k = true ↔ hasKey t k = true ∨ ∃ r ∈ rules, adds r t.kids = true ∧ k = r.row := by
+  obtain ⟨imp, hi, rfl⟩ := complete_eq h
+  obtain ⟨a⟩ := t
+  rw [hasKey_iff, hasKey_iff, mem_keys_merge, rules_keys _ _ _ _ hi k]
+  simp only [Cfg.kids]
+  constructor
+  · rintro (h | h | h | ⟨r, _, e, he, _, rfl⟩)
+    · exact .inl h
+    · simp [keys] at h
+    · exact .inr h
+    · exact .inl (keys_of_mem he)
+  · rintro (h | h)
+    · exact .inl h
+    · exact .inr (.inr (.inl h))
 
 theorem default_iff (rules : List IRule) (t m : Cfg) (h : complete rules t = some m) (hd : RowsDistinct rules)
     (r : IRule) (hr : r ∈ rules) (hi : r.ignore = false) :
     hasKey m r.row = (hasKey t r.row || !hasLineOfKind r t) := by
-  sorry
+  rw [Bool.eq_iff_iff, complete_keys h]
+  constructor
+  · rintro (h1 | ⟨r', hr', ha, he⟩)
+    · simp [h1]
+    · have := rows_inj rules hd r hr r' hr' he
+      subst this
+      rw [adds_eq] at ha
+      simp only [Bool.and_eq_true, Bool.not_eq_true'] at ha
+      simp [ha.1.2]
+  · intro h1
+    by_cases hk : hasKey t r.row = true
+    · exact .inl hk
+    · refine .inr ⟨r, hr, ?_, rfl⟩
+      rw [adds_eq, hi]
+      simp only [hk, Bool.false_or, Bool.not_eq_true'] at h1
+      simp [h1, hk]
 
 theorem ignore_adds_nothing_new (rules : List IRule) (t m : Cfg) (h : complete rules t = some m)
     (hall : ∀ r ∈ rules, r.ignore = true) (k : String) : hasKey m k = hasKey t k := by
-  sorry
+  rw [Bool.eq_iff_iff, complete_keys h]
+  constructor
+  · rintro (h1 | ⟨r, hr, ha, _⟩)
+    · exact h1
+    · rw [adds_eq, hall r hr] at ha
+      simp at ha
+  · exact .inl
+
+
+/-! ### idempotence -/
+
+theorem mem_mergeL : (a b : List (String × Cfg)) → ∀ k c, (k, c) ∈ mergeL a b →
+    ∃ c0, (k, c0) ∈ a ∧ ((k ∉ keys b ∧ c = c0) ∨ ∃ c1, (k, c1) ∈ b ∧ c = merge c0 c1)
+  | [], _, _, _, h => by rw [mergeL] at h; cases h
+  | (k0, c0) :: rest, b, k, c, h => by
+    rw [mergeL] at h
+    rcases List.mem_cons.1 h with h | h
+    · refine ⟨c0, ?_⟩
+      split at h
+      · rename_i k' c' hf
+        cases h
+        exact ⟨List.mem_cons_self, .inr ⟨c', (find_some hf).2, rfl⟩⟩
+      · rename_i hf
+        cases h
+        exact ⟨List.mem_cons_self, .inl ⟨find_none hf, rfl⟩⟩
+    · obtain ⟨c0', h1, h2⟩ := mem_mergeL rest b k c h
+      exact ⟨c0', List.mem_cons_of_mem _ h1, h2⟩
+
+theorem mergeL_eq_self : (a b : List (String × Cfg)) →
+    (∀ k c, (k, c) ∈ a → ∀ k' c', b.find? (·.1 == k) = some (k', c') → merge c c' = c) → mergeL a b = a
+  | [], _, _ => by rw [mergeL]
+  | (k, c) :: rest, b, h => by
+    rw [mergeL, mergeL_eq_self rest b (fun k c hm => h k c (List.mem_cons_of_mem _ hm))]
+    congr 1
+    split
+    · rename_i k' c' hf
+      rw [h k c List.mem_cons_self k' c' hf]
+    · rfl
+
+theorem keys_append (x y : List (String × Cfg)) : keys (x ++ y) = keys x ++ keys y := List.map_append
+
+theorem nodup_keys_merge {a b : List (String × Cfg)} (ha : (keys a).Nodup) (hb : (keys b).Nodup) :
+    (keys (merge (.mk a) (.mk b)).kids).Nodup := by
+  rw [merge]
+  simp only [Cfg.kids]
+  rw [keys_append, keys_mergeL, List.nodup_append]
+  refine ⟨ha, ?_, ?_⟩
+  · exact List.Nodup.sublist (List.Sublist.map _ List.filter_sublist) hb
+  · intro x hx y hy hxy
+    subst hxy
+    obtain ⟨e, he, rfl⟩ := List.mem_map.1 hy
+    have h2 := (List.mem_filter.1 he).2
+    rw [(any_key a e.1).2 hx] at h2
+    cases h2
+
+theorem mem_merge_kids {a b : List (String × Cfg)} {k : String} {c : Cfg} (h : (k, c) ∈ (merge (.mk a) (.mk b)).kids) :
+    (∃ c0, (k, c0) ∈ a ∧ ((k ∉ keys b ∧ c = c0) ∨ ∃ c1, (k, c1) ∈ b ∧ c = merge c0 c1)) ∨
+    ((k, c) ∈ b ∧ k ∉ keys a) := by
+  rw [merge] at h
+  simp only [Cfg.kids] at h
+  rcases List.mem_append.1 h with h | h
+  · exact .inl (mem_mergeL a b k c h)
+  · obtain ⟨h1, h2⟩ := List.mem_filter.1 h
+    refine .inr ⟨h1, fun hk => ?_⟩
+    rw [(any_key a k).2 hk] at h2
+    cases h2
+
+theorem nodupKeys_child : (a : List (String × Cfg)) → NoDupKeysL a → ∀ k c, (k, c) ∈ a → NoDupKeys c
+  | [], _, _, _, h => by cases h
+  | (k0, c0) :: rest, hn, k, c, h => by
+    rw [NoDupKeysL] at hn
+    rcases List.mem_cons.1 h with h | h
+    · cases h; exact hn.2.1
+    · exact nodupKeys_child rest hn.2.2 k c h
+
+theorem adds_iff (r : IRule) (cfg : List (String × Cfg)) :
+    adds r cfg = true ↔ r.ignore = false ∧ (∀ k ∈ keys cfg, matchesLine r k = true → k.isEmpty = true) ∧
+      r.row ∉ keys cfg := by
+  rw [← any_key]
+  simp only [adds, matchedBy, List.any_filter, keys, Bool.and_eq_true, Bool.not_eq_true', List.any_eq_false,
+    List.mem_map, Bool.not_eq_true, forall_exists_index, and_imp, forall_apply_eq_imp_iff₂,
+    and_assoc, beq_iff_eq]
+  constructor
+  · rintro ⟨h1, h2, h3⟩
+    refine ⟨h1, fun e he hm => ?_, by simpa using h3⟩
+    have := h2 e he
+    simpa [hm] using this
+  · rintro ⟨h1, h2, h3⟩
+    refine ⟨h1, fun e he => ?_, by simpa using h3⟩
+    cases hm : matchesLine r e.1
+    · simp
+    · simpa using h2 e he hm
+
+mutual
+  def deepL (P : List IRule → Bool) : List IRule → Bool
+    | [] => true
+    | r :: rest => deepR P r && deepL P rest
+  def deepR (P : List IRule → Bool) : IRule → Bool
+    | .mk _ _ ch => P ch && deepL P ch
+end
+
+/-- `P` holds of the rule list and, recursively, of the children of every rule in it (decidable) -/
+def Deep (P : List IRule → Bool) (rules : List IRule) : Prop := (P rules && deepL P rules) = true
+
+instance (P : List IRule → Bool) (rules : List IRule) : Decidable (Deep P rules) := by
+  unfold Deep; infer_instance
+
+theorem Deep.here {P : List IRule → Bool} {rules : List IRule} (h : Deep P rules) : P rules = true := by
+  simp only [Deep, Bool.and_eq_true] at h; exact h.1
+
+theorem deepL_mem {P : List IRule → Bool} : (rules : List IRule) → deepL P rules = true →
+    ∀ r ∈ rules, deepR P r = true
+  | [], _, _, hr => by cases hr
+  | r0 :: rest, h, r, hr => by
+    rw [deepL, Bool.and_eq_true] at h
+    rcases List.mem_cons.1 hr with rfl | hr
+    · exact h.1
+    · exact deepL_mem rest h.2 r hr
+
+theorem Deep.child {P : List IRule → Bool} {rules : List IRule} (h : Deep P rules) {r : IRule} (hr : r ∈ rules) :
+    Deep P r.children := by
+  simp only [Deep, Bool.and_eq_true] at h
+  have := deepL_mem rules h.2 r hr
+  obtain ⟨row, ign, ch⟩ := r
+  rw [deepR] at this
+  exact this
+
+instance (rules : List IRule) : Decidable (RowsDistinct rules) := by
+  unfold RowsDistinct; infer_instance
+
+/-- sibling rule rows are pairwise distinct at every level of the rule tree
+(`RowsDistinct` only speaks about the top level) -/
+def DeepDistinct (rules : List IRule) : Prop := Deep (fun rs => decide (RowsDistinct rs)) rules
+
+/-- every rule row is a line of its own language, at every level of the rule tree: the default line a rule
+adds is recognised by that rule on the next run.  Holds for every grammar row without the `(?i)` flag
+(`rowMatches (.mk "(?i)foo" false []) "(?i)foo" = some false`); decidable for a concrete rule set. -/
+def SelfMatch (rules : List IRule) : Prop := Deep (fun rs => rs.all fun r => rowMatches r r.row == some true) rules
+
+/-- `SelfMatch` is not a theorem: an `(?i)` row is outside its own language -/
+example : rowMatches (.mk "(?i)foo" false []) "(?i)foo" = some false := by decide
+
+instance (rules : List IRule) : Decidable (DeepDistinct rules) := by unfold DeepDistinct; infer_instance
+instance (rules : List IRule) : Decidable (SelfMatch rules) := by unfold SelfMatch; infer_instance
+
+theorem sizeOf_children_lt {rules : List IRule} {r : IRule} (hr : r ∈ rules) : sizeOf r.children < sizeOf rules := by
+  have := List.sizeOf_lt_of_mem hr
+  obtain ⟨row, ign, ch⟩ := r
+  simp only [IRule.mk.sizeOf_spec] at this
+  simp only [IRule.children]
+  omega
+
+theorem complete_of_config {rules : List IRule} {sub sub' : List (String × Cfg)}
+    (h : configRules rules sub [] = some sub') :
+    complete rules (.mk sub) = some (merge (.mk sub) (.mk sub')) := by
+  simp [complete, config, Cfg.kids, h]
+
+theorem merge_nil_left (b : List (String × Cfg)) : merge (.mk []) (.mk b) = .mk b := by
+  rw [merge, mergeL]; simp
+
+/-- the main induction (over the rule tree) -/
+theorem idem_core (rules : List IRule) (t m : Cfg) (h : complete rules t = some m)
+    (hnd : NoDupKeys t) (hdd : DeepDistinct rules) (hdis : Disjoint rules) (hsm : SelfMatch rules) :
+    complete rules m = some m := by
+  obtain ⟨hdis1, hdis2⟩ : (∀ r1 ∈ rules, ∀ r2 ∈ rules, r1.row ≠ r2.row → ∀ line,
+      rowMatches r1 line = some true → rowMatches r2 line = some true → False) ∧
+      (∀ r ∈ rules, Disjoint r.children) := by
+    cases hdis with
+    | mk _ h1 h2 => exact ⟨h1, h2⟩
+  have IH : ∀ r ∈ rules, ∀ t' m', complete r.children t' = some m' → NoDupKeys t' →
+      complete r.children m' = some m' := fun r hr t' m' h' hn' =>
+    idem_core r.children t' m' h' hn' (hdd.child hr) (hdis2 r hr) (hsm.child hr)
+  have hd : RowsDistinct rules := by simpa using hdd.here
+  have hself : ∀ r ∈ rules, matchesLine r r.row = true := by
+    have := hsm.here
+    simp only [List.all_eq_true] at this
+    exact this
+  -- same line ⇒ same rule
+  have hsame : ∀ r1 ∈ rules, ∀ r2 ∈ rules, ∀ line, matchesLine r1 line = true → matchesLine r2 line = true →
+      r1 = r2 := by
+    intro r1 h1 r2 h2 line hm1 hm2
+    apply rows_inj rules hd r1 h1 r2 h2
+    apply Classical.byContradiction
+    intro hne
+    exact hdis1 r1 h1 r2 h2 hne line (by simpa [matchesLine] using hm1) (by simpa [matchesLine] using hm2)
+  obtain ⟨imp, hi, rfl⟩ := complete_eq h
+  obtain ⟨a⟩ := t
+  simp only [Cfg.kids] at hi
+  rw [NoDupKeys] at hnd
+  have hna : (keys a).Nodup := nodupKeys_keys a hnd
+  have hni : (keys imp).Nodup := rules_nodup _ _ _ _ hi List.nodup_nil
+  have hnm := nodup_keys_merge hna hni
+  have hkm : ∀ k, k ∈ keys (merge (.mk a) (.mk imp)).kids ↔ k ∈ keys a ∨ k ∈ keys imp := fun k => mem_keys_merge
+  have hki := rules_keys _ _ _ _ hi
+  -- every line of the completion that a rule recognises is already complete for the rule's children
+  have K : ∀ k c, (k, c) ∈ (merge (.mk a) (.mk imp)).kids → ∀ r ∈ rules, matchesLine r k = true →
+      complete r.children c = some c := by
+    intro k c hm r hr hmatch
+    rcases mem_merge_kids hm with ⟨c0, hc0, hcase⟩ | ⟨hci, hka⟩
+    · have hkimp : k ∈ keys imp := (hki k).2 (.inr (.inr ⟨r, hr, (k, c0), hc0, hmatch, rfl⟩))
+      rcases hcase with ⟨hno, _⟩ | ⟨c1, hc1, rfl⟩
+      · exact (hno hkimp).elim
+      · rcases rules_mem _ _ _ _ hi _ hc1 with h1 | ⟨r1, hr1, hadd, sub, _, he⟩ | ⟨r1, hr1, line, sub, sub', hl, hm1, hcr, he⟩
+        · cases h1
+        · cases he
+          exact (((adds_iff r1 a).1 hadd).2.2 (keys_of_mem hc0)).elim
+        · cases he
+          have : c0 = .mk sub := entry_unique a hna hc0 hl
+          subst this
+          have : r = r1 := hsame r hr r1 hr1 k hmatch hm1
+          subst this
+          exact IH r hr _ _ (complete_of_config hcr) (nodupKeys_child a hnd _ _ hl)
+    · rcases rules_mem _ _ _ _ hi _ hci with h1 | ⟨r1, hr1, hadd, sub, hcr, he⟩ | ⟨r1, hr1, line, sub, sub', hl, hm1, hcr, he⟩
+      · cases h1
+      · cases he
+        have : r = r1 := hsame r hr r1 hr1 _ hmatch (hself r1 hr1)
+        subst this
+        have h0 := complete_of_config hcr
+        rw [merge_nil_left] at h0
+        exact IH r hr _ _ h0 (by rw [NoDupKeys, NoDupKeysL]; trivial)
+      · cases he
+        exact (hka (keys_of_mem hl)).elim
+  -- the second run adds nothing
+  have N : ∀ r ∈ rules, adds r (merge (.mk a) (.mk imp)).kids = false := by
+    intro r hr
+    rw [← Bool.not_eq_true]
+    intro hadd
+    obtain ⟨h1, h2, h3⟩ := (adds_iff r _).1 hadd
+    have : adds r a = true :=
+      (adds_iff r a).2 ⟨h1, fun k hk => h2 k ((hkm k).2 (.inl hk)), fun hk => h3 ((hkm _).2 (.inl hk))⟩
+    exact h3 ((hkm _).2 (.inr ((hki _).2 (.inr (.inl ⟨r, hr, this, rfl⟩)))))
+  obtain ⟨imp2, hi2⟩ : ∃ imp2, configRules rules (merge (.mk a) (.mk imp)).kids [] = some imp2 := by
+    apply rules_some
+    intro r hr
+    refine ⟨rules_parse _ _ _ _ hi r hr, fun hadd => ?_, fun line sub hl hm => ?_⟩
+    · rw [N r hr] at hadd; cases hadd
+    · have := K line (.mk sub) hl r hr hm
+      obtain ⟨imp', h', _⟩ := complete_eq this
+      simp only [Cfg.kids] at h'
+      rw [h']; rfl
+  generalize hM : merge (.mk a) (.mk imp) = M at *
+  obtain ⟨mk⟩ := M
+  simp only [Cfg.kids] at hi2 K N hnm
+  rw [complete_of_config hi2, merge]
+  have e1 : mergeL mk imp2 = mk := by
+    apply mergeL_eq_self
+    intro k c hc k' c' hf
+    have hc' := (find_some hf).2
+    rcases rules_mem _ _ _ _ hi2 _ hc' with h1 | ⟨r1, hr1, hadd, _⟩ | ⟨r1, hr1, line, sub, sub', hl, hm1, hcr, he⟩
+    · cases h1
+    · rw [N r1 hr1] at hadd; cases hadd
+    · cases he
+      have : c = .mk sub := entry_unique mk hnm hc hl
+      subst this
+      have := K _ _ hl r1 hr1 hm1
+      rw [complete_of_config hcr] at this
+      exact Option.some.inj this
+  have e2 : imp2.filter (fun e => !(mk.any (·.1 == e.1))) = [] := by
+    rw [List.filter_eq_nil_iff]
+    intro e he
+    have hk : e.1 ∈ keys mk := by
+      rcases (rules_keys _ _ _ _ hi2 e.1).1 (keys_of_mem he) with h1 | ⟨r1, hr1, hadd, _⟩ | ⟨r1, hr1, e', he', _, hk⟩
+      · simp [keys] at h1
+      · rw [N r1 hr1] at hadd; cases hadd
+      · rw [← hk]; exact keys_of_mem he'
+    simp only [(any_key mk e.1).2 hk, Bool.not_true, Bool.false_eq_true, not_false_eq_true]
+  rw [e1, e2, List.append_nil]
+termination_by sizeOf rules
+decreasing_by exact sizeOf_children_lt hr
+
+/-
+Original statement (FALSE as written):
 
 theorem complete_idempotent (rules : List IRule) (t m : Cfg) (h : complete rules t = some m)
     (hnd : NoDupKeys t) (hd : RowsDistinct rules) (hdis : Disjoint rules) :
-    complete rules m = some m := by
-  sorry
+    complete rules m = some m
+
+Counterexample (checked below by `decide`): `RowsDistinct` only constrains the top level, and `Disjoint`
+says nothing about two sibling rules with the same row, so two child rules may share a row:
+  rules = [t {a {x}, !a {y}}], t = {}: first run gives t/a/x, second run gives t/a/x + t/a/y.
+-/
+example :
+    let rules : List IRule := [.mk "t" false [.mk "a" false [.mk "x" false []], .mk "a" true [.mk "y" false []]]]
+    RowsDistinct rules ∧
+    (complete rules (.mk [])).map Cfg.paths = some [["t"], ["t", "a"], ["t", "a", "x"]] ∧
+    ((complete rules (.mk [])).bind (complete rules)).map Cfg.paths =
+      some [["t"], ["t", "a"], ["t", "a", "x"], ["t", "a", "y"]] := by
+  decide
+
+-- STATEMENT CHANGED: two extra hypotheses.
+-- (1) `hdd : DeepDistinct rules` — sibling rows distinct at EVERY level (the original is false without it, see the
+--     counterexample above); it subsumes `hd`, which is kept for compatibility.
+-- (2) `hsm : SelfMatch rules` — every rule row is a line of its own language (false exactly for rows with the
+--     `(?i)` flag, so not provable in general); it lets `Disjoint` exclude that a default row added by one rule is
+--     picked up by a *different* sibling rule on the second run.
+-- Both are decidable (`by decide`) for a concrete rule set.
+theorem complete_idempotent (rules : List IRule) (t m : Cfg) (h : complete rules t = some m)
+    (hnd : NoDupKeys t) (_hd : RowsDistinct rules) (hdis : Disjoint rules)
+    (hdd : DeepDistinct rules) (hsm : SelfMatch rules) :
+    complete rules m = some m :=
+  idem_core rules t m h hnd hdd hdis hsm
+
 
 end Annet.Implicit.Lemmas
